@@ -633,9 +633,9 @@ def sync_jobs(
         exclude = []
     elif not isinstance(exclude, list):
         exclude = [exclude]
-    exclude.append(src.FN_STATE_POINT)
+    exclude.append(re.escape(src.FN_STATE_POINT) + r"\Z")
     if doc_sync != DocSync.COPY:
-        exclude.append(src.FN_DOCUMENT)
+        exclude.append(re.escape(src.FN_DOCUMENT) + r"\Z")
 
     if type(dry_run) is _FileModifyProxy:
         proxy = dry_run
